@@ -21,4 +21,8 @@ TEXT = {
         "text": "upload_chunks (chunks 0..n-1, all but the last full, exact length and chunk size), upload_partition_independent, download_simulates (a simulation between DownloadStream and an in-memory reader for every read/skip/seek script incl. invalid whence), upload_then_download, abort/delete_leaves_nothing, resume_equivalent (suspend/resume at arbitrary points) and write_never_diverges are Lean theorems for all contents, chunk sizes 0 < c <= buffer, partitions and scripts; the model of bucket.go is tied by a differential stream through the real Bucket over an in-memory engine (contents up to and around the 16 MiB buffer, tracked and untracked lifecycles) with independent monitors (bytes.Reader replay, chunk numbering, leftovers).",
         "note": "Trusted: Lean kernel; the engine below the bucket; no extractor fact yet for bucket.go (tie is correspondence only).",
     },
+    "C13": {
+        "text": "sort_perm, sort_nondecreasing (all pairs), sort_stable / ties_in_insertion_order, sort_unique (any permutation that is non-decreasing and tie-preserving equals the model's sort), the sort-key lemmas (arrays by minimum ascending / maximum descending, missing as null, empty array as itself), order_lexicographic/reverse, distinct_ascending (strict), distinct_sound/complete are Lean theorems about the model of bsonkit.Sort / mongokit.Sort / Collect for all lists and specifications; differential streams on generated lists with independent monitors (permutation, non-decreasing, stability, distinct set equality). The find/skip/limit window theorems are being added on the collection model.",
+        "note": "Trusted: Lean kernel; Go sort contracts as stated; Compare laws (C12). collect_elements is partial for fan-out paths.",
+    },
 }
